@@ -22,12 +22,13 @@ import (
 // client.
 
 type Damage struct {
-	Kind string   `json:"kind"` // truncate flip field extend zero
-	At   int64    `json:"at"`   // length / byte offset / field index
-	Bit  int      `json:"bit,omitempty"`
-	Val  uint64   `json:"val,omitempty"`
-	Wide bool     `json:"wide,omitempty"` // 64-bit field (wire point-list count)
-	Also []Damage `json:"also,omitempty"` // further fields set together with this one
+	Kind  string   `json:"kind"` // truncate flip field extend zero
+	At    int64    `json:"at"`   // length / byte offset / field index
+	Bit   int      `json:"bit,omitempty"`
+	Val   uint64   `json:"val,omitempty"`
+	Wide  bool     `json:"wide,omitempty"`  // 64-bit field (wire point-list count)
+	Also  []Damage `json:"also,omitempty"`  // further fields set together with this one
+	Forge []int64  `json:"forge,omitempty"` // kind "forge": step0, points0, step1, points1, ...: the whole file is replaced by a well-formed looking file with these archives
 }
 
 func (d Damage) String() string {
@@ -51,6 +52,8 @@ func (d Damage) String() string {
 		return fmt.Sprintf("Content-Length announced as %d", d.Val)
 	case "zero":
 		return fmt.Sprintf("bytes from offset %d zeroed", d.At)
+	case "forge":
+		return fmt.Sprintf("replaced by a forged file with archives (step, points) %v, contiguous offsets and an aligned base interval in each", d.Forge)
 	}
 	return d.Kind
 }
@@ -188,6 +191,10 @@ func applyDamage(b []byte, d Damage) []byte {
 		for i := d.At; i >= 0 && i < int64(len(out)); i++ {
 			out[i] = 0
 		}
+	case "forge":
+		if f := forgeFile(d.Forge); f != nil {
+			out = f
+		}
 	}
 	return out
 }
@@ -267,6 +274,10 @@ func c15Stored(e *Env, c *C15Case, base []byte) {
 	hdr := int64(16 + 12*len(c.Layout.Archs))
 	list := damages(r, int64(len(base)), hdr, nil)
 	list = append(list, retentionWrapDamages(c.Layout)...)
+	if c.Mode == "stored" {
+		list = append(list, forgedHeaders(r)...)
+	}
+	list = append(list, baseWrapDamages(c.Layout, Now())...)
 	if len(base) > 40000 && c.Only == nil {
 		// every operation on such a file touches tens of thousands of slots:
 		// keep the header-field grid and a seeded quarter of the rest
@@ -357,6 +368,10 @@ func c15Stored(e *Env, c *C15Case, base []byte) {
 				return err
 			})
 			if id >= 0 {
+				g.run(fmt.Sprintf("FetchFromArchive(%d, now-5, 2^32-1)", id), func() error {
+					_, err := db.FetchFromArchive(id, wt.Timestamp(now-5), wt.Timestamp(math.MaxUint32), wt.Timestamp(now))
+					return err
+				})
 				g.run(fmt.Sprintf("FetchFromArchive(%d, now-5, now)", id), func() error {
 					_, err := db.FetchFromArchive(id, wt.Timestamp(now-5), wt.Timestamp(now), wt.Timestamp(now))
 					return err
@@ -557,6 +572,90 @@ func retentionWrapDamages(l Layout) []Damage {
 				}
 				out = append(out, d)
 			}
+		}
+		off += 12 * a.N
+	}
+	return out
+}
+
+// forgeFile builds a file that looks well formed field by field: contiguous
+// offsets, the announced length, maxRetention taken (mod 2^32) from the last
+// archive, and in every archive a base slot holding its own step as interval.
+func forgeFile(spec []int64) []byte {
+	if len(spec) < 2 || len(spec)%2 != 0 || len(spec) > 8 {
+		return nil
+	}
+	n := len(spec) / 2
+	total := int64(0)
+	for i := 0; i < n; i++ {
+		if spec[2*i] <= 0 || spec[2*i] > math.MaxUint32 || spec[2*i+1] <= 0 || spec[2*i+1] > 64 {
+			return nil
+		}
+		total += spec[2*i+1]
+	}
+	hdr := 16 + 12*n
+	b := make([]byte, int64(hdr)+12*total)
+	binary.BigEndian.PutUint32(b[0:], 1)
+	binary.BigEndian.PutUint32(b[4:], uint32(spec[2*(n-1)]*spec[2*(n-1)+1]))
+	binary.BigEndian.PutUint32(b[8:], math.Float32bits(0.5))
+	binary.BigEndian.PutUint32(b[12:], uint32(n))
+	off := int64(hdr)
+	for i := 0; i < n; i++ {
+		binary.BigEndian.PutUint32(b[16+12*i:], uint32(off))
+		binary.BigEndian.PutUint32(b[16+12*i+4:], uint32(spec[2*i]))
+		binary.BigEndian.PutUint32(b[16+12*i+8:], uint32(spec[2*i+1]))
+		binary.BigEndian.PutUint32(b[off:], uint32(spec[2*i]))
+		binary.BigEndian.PutUint64(b[off+4:], math.Float64bits(1))
+		off += 12 * spec[2*i+1]
+	}
+	return b
+}
+
+// forgedHeaders: two- and three-archive files whose steps divide and whose
+// point counts suffice, with retentions (step x points) around 2^31 and 2^32
+// in an archive that is not necessarily the last one. A seeded sixth of the
+// table per object.
+func forgedHeaders(r *rand.Rand) []Damage {
+	var out []Damage
+	for _, s0 := range []int64{1 << 27, 1 << 28, 1 << 29, 1 << 30, 3 << 28} {
+		for _, n0 := range []int64{2, 3, 4, 5, 8, 9, 16, 17} {
+			for _, m := range []int64{2, 4} {
+				if n0 < m || s0*m > math.MaxUint32 {
+					continue
+				}
+				for _, n1 := range []int64{1, 2, 3, 5} {
+					if s0*n0 < 1<<31 && s0*m*n1 < 1<<31 {
+						continue // an ordinary valid file
+					}
+					if r.IntN(6) == 0 {
+						out = append(out, Damage{Kind: "forge", Forge: []int64{s0, n0, s0 * m, n1}})
+					}
+					if r.IntN(12) == 0 && s0*m*2 <= math.MaxUint32 && n1 >= 2 {
+						out = append(out, Damage{Kind: "forge", Forge: []int64{s0, n0, s0 * m, n1, s0 * m * 2, 1}})
+					}
+				}
+			}
+		}
+	}
+	return out
+}
+
+// baseWrapDamages: the base interval of an archive is set to an aligned instant
+// about 2^31 seconds away from the clock, a few steps to either side, so that
+// the signed 32-bit distance from the base wraps for one end of an interval
+// read or consolidated around "now" and not for the other.
+func baseWrapDamages(l Layout, now int64) []Damage {
+	var out []Damage
+	off := int64(16 + 12*len(l.Archs))
+	for k, a := range l.Archs {
+		ratio := int64(4)
+		if k+1 < len(l.Archs) {
+			ratio = l.Archs[k+1].S / a.S
+		}
+		for _, j := range []int64{-ratio - 1, -ratio, -ratio / 2, -1, 0, 1, ratio / 2, ratio, ratio + 1} {
+			t := now + 1<<31 + j*a.S
+			t -= t % a.S
+			out = append(out, Damage{Kind: "field", At: off, Val: uint64(uint32(t))})
 		}
 		off += 12 * a.N
 	}
